@@ -441,7 +441,10 @@ fn check_set(ctx: &Ctx, ra: &ReqAlphabet, set: &[&Pre], cn: &Counters, samples: 
                         });
                     }
                 }
-                if *acc && prop == "C01" {
+                // the same accepted set must dispatch every request alike in every registration order; a
+                // difference is how an ambiguity inside the implementation (two handlers matching one
+                // request) shows from outside - C02 reports it as well
+                if *acc && (prop == "C01" || prop == "C02") {
                     cn.evals.fetch_add(1, Ordering::Relaxed);
                     if let Some(ix) = (0..obs_all.len()).find(|&i| obs_all[i] != fobs[i]) {
                         ctx.report(Violation {
@@ -500,6 +503,10 @@ fn main() {
                 return;
             }
             let specs: Vec<Spec> = case["specs"].as_array().unwrap().iter().map(Spec::from_json).collect();
+            if case["kind"] == json!("live_table") {
+                vh::slices::route_live_slice(ctx, &[specs.clone()], &Samples::new(0));
+                return;
+            }
             let pre = precompute(&specs, &ra);
             let set: Vec<&Pre> = pre.iter().collect();
             let cn = new_counters();
@@ -604,7 +611,7 @@ fn main() {
         "traces_validated_against_impl": cn.histories.load(Ordering::Relaxed),
         "evaluations": cn.evals.load(Ordering::Relaxed),
         "distinct_nontrivial": cn.nontrivial.load(Ordering::Relaxed),
-        "rule": "state = set of endpoint specs (method x template x version range); transition = one real ApiDescription::register call on a description rebuilt by replaying the prefix; every permutation of every subset of the layer's alphabet is executed; every fully accepted table is probed with methods{GET,PUT,DELETE,POST} x 40 paths (<=3 segments over a,b,c) x 7 versions (+None for all-All tables) through the real lookup_route and compared with RefMatcher/RefRange. distinct_nontrivial = accepted sets of >=2 endpoints on which at least one request matched an endpoint.",
+        "rule": "state = set of endpoint specs (method x template x version range); transition = one real ApiDescription::register call on a description rebuilt by replaying the prefix; every permutation of every subset of the layer's alphabet is executed; every fully accepted table is probed with methods{GET,PUT,DELETE,POST} x 40 paths (<=3 segments over a,b,c) x 10 versions incl. pre-releases of the range bounds (+None for all-All tables) through the real lookup_route and compared with RefMatcher/RefRange. distinct_nontrivial = accepted sets of >=2 endpoints on which at least one request matched an endpoint.",
         "accepted_sets": cn.accepted_sets.load(Ordering::Relaxed),
         "lookups": cn.lookups.load(Ordering::Relaxed),
         "distinct_observation_matrices": cn.obs_classes.lock().unwrap().len(),
